@@ -3,7 +3,7 @@
    (Panic exactly where the code has unwrap()); numerical kernels are oracles.  Every theorem is quantified over the
    numeric carrier, its operations, the unit constants and ALL oracles. *)
 From Coq Require Import String List Bool ZArith QArith.
-From SpdVerif Require Import Base.NumOps Spec.ConfigSpec Gen.ConfigTables Gen.ConfigSites Model.ConfigTypes Model.Config Model.NumInst
+From SpdVerif Require Import Base.CfgNumOps Spec.ConfigSpec Gen.ConfigTables Gen.ConfigSites Model.ConfigTypes Model.Config Model.NumInst
   Proofs.C17_rules Proofs.C17_finite Proofs.C17_entry.
 Import ListNotations.
 
